@@ -346,6 +346,66 @@ pub fn run_case(ctx: &mut CaseCtx) -> CaseResult {
                 res.count("unspecified_inputs", 1);
                 res.add_to_set("unspecified_reasons", *why);
                 res.nontrivial = false;
+                // Not specified is what an empty part means - but "tolerant with spaces" says that
+                // a part of blanks only means what an empty part means: the same string with such
+                // parts emptied must be accepted or rejected alike and decide alike.
+                if why.contains("empty part") || why.contains("whitespace-only") {
+                    let (mods, rest) = match s.find('/') {
+                        Some(i) => (&s[..i], &s[i..]),
+                        None => (s.as_str(), ""),
+                    };
+                    let emptied: String = mods
+                        .split(',')
+                        .map(|p| if p.trim().is_empty() { "" } else { p })
+                        .collect::<Vec<_>>()
+                        .join(",")
+                        + rest;
+                    if emptied != s {
+                        let other = LogSpecification::parse(&emptied);
+                        let pair = |x: Result<LogSpecification, FlexiLoggerError>| match x {
+                            Ok(sp) => (true, Some(sp)),
+                            Err(FlexiLoggerError::Parse(_, sp)) => (false, Some(sp)),
+                            Err(_) => (false, None),
+                        };
+                        let (ok_a, sp_a) = pair(parsed);
+                        let (ok_b, sp_b) = pair(other);
+                        res.count("blank_part_relations_checked", 1);
+                        let model = MSpec { entries: r.entries.clone(), text: None };
+                        let mut targets = spec::grid_targets(&[&model]);
+                        targets.push("zzz::unrelated".into());
+                        targets.push(String::new());
+                        let same = ok_a == ok_b
+                            && match (&sp_a, &sp_b) {
+                                (Some(a), Some(b)) => decide_equal_real(a, b, &targets).is_ok(),
+                                (None, None) => true,
+                                _ => false,
+                            };
+                        if !same {
+                            res.nontrivial = true;
+                            res.violate(
+                                "blank-part-differs-from-empty-part",
+                                "C17/blank-part-differs-from-empty-part",
+                                format!(
+                                    "{s:?} and {emptied:?} (parts of blanks emptied) are treated differently: {} vs {}{}",
+                                    if ok_a { "Ok" } else { "Err" },
+                                    if ok_b { "Ok" } else { "Err" },
+                                    match (&sp_a, &sp_b) {
+                                        (Some(a), Some(b)) => match decide_equal_real(a, b, &targets) {
+                                            Err(d) => format!("; {d}"),
+                                            Ok(_) => String::new(),
+                                        },
+                                        _ => String::new(),
+                                    }
+                                ),
+                            );
+                        }
+                        if ctx.case < 8 || res.verdict != Verdict::Held {
+                            res.sample = Some(json!({"input": s, "emptied": emptied}));
+                        }
+                        res.absorb_panics("C17", "spec text forms");
+                        return res;
+                    }
+                }
             } else {
                 res.nontrivial = true;
                 let model = MSpec {
